@@ -277,13 +277,20 @@ class Delegations:
                     format = DelegationFormat.PoolDefinition
                     pool_id = v[ABCPropertyGraphConstants.FIELD_POOL_ID]
                 if atype == DelegationType.CAPACITY:
+                    if ABCPropertyGraphConstants.FIELD_LABELS in v.keys():
+                        raise DelegationException(msg=f'Delegation {k} of type {atype} carries labels')
                     caporlabdict = v[ABCPropertyGraphConstants.FIELD_CAPACITIES]
                     caporlab = Capacities(**caporlabdict)
                 else:
+                    if ABCPropertyGraphConstants.FIELD_CAPACITIES in v.keys():
+                        raise DelegationException(msg=f'Delegation {k} of type {atype} carries capacities')
                     caporlabdict = v[ABCPropertyGraphConstants.FIELD_LABELS]
                     caporlab = Labels(**caporlabdict)
             elif ABCPropertyGraphConstants.FIELD_POOL in v.keys():
                 # pool reference
+                if ABCPropertyGraphConstants.FIELD_CAPACITIES in v.keys() or \
+                        ABCPropertyGraphConstants.FIELD_LABELS in v.keys():
+                    raise DelegationException(msg=f'Pool reference delegation {k} carries capacities or labels')
                 format = DelegationFormat.PoolReference
                 pool_id = v[ABCPropertyGraphConstants.FIELD_POOL]
                 caporlab = None
